@@ -80,7 +80,7 @@ where
     Ok(())
 }
 
-fn all(s: &str, st: &mut Stats) -> Result<(), String> {
+pub fn all(s: &str, st: &mut Stats) -> Result<(), String> {
     judge::<IStr>(s, st)?;
     judge::<ITyped>(s, st)
 }
